@@ -102,6 +102,32 @@ def fx_provide(params):
             LOG.append(['model', dict(params), id(m)])
             return m
     mod.FxLateModel = FxLateModel
+    _provide_members(mod)
+    sys.modules[LATE_MODULE] = mod
+    fx_hook(params)
+
+
+def _provide_members(mod):
+    class FxLateAgent(FxAgent):
+        @staticmethod
+        def decode(params):
+            LOG.append(['agent', params['group'], params.get('agent_index'), _state(params.get('model'))])
+            return FxLateAgent(f"{params['group']}_{params.get('agent_index')}", params['model'])
+
+    class FxLateSystem(FxSystem):
+        @staticmethod
+        def decode(params):
+            LOG.append(['system', params['id'], _state(params.get('model'))])
+            return FxLateSystem(params['id'], params['model'], priority=params['priority'], frequency=params['frequency'],
+                                start=params['start'], end=params['end'])
+    mod.FxLateAgent, mod.FxLateSystem = FxLateAgent, FxLateSystem
+
+
+def fx_provide_members(params):
+    """A per-system / per-group pre hook that makes the class named by the entry available just in time."""
+    import types
+    mod = types.ModuleType(LATE_MODULE)
+    _provide_members(mod)
     sys.modules[LATE_MODULE] = mod
     fx_hook(params)
 
@@ -157,6 +183,8 @@ def build_desc(case):
     def hook(name):
         if name == 'pre_model' and case.get('late_model'):
             return ent({'func': 'fx_provide', 'params': {'name': name}})
+        if name == case.get('late_at'):
+            return ent({'func': 'fx_provide_members', 'params': {'name': name}})
         if name == case.get('swap_at'):
             return ent({'func': 'fx_swap_env', 'params': {'name': name}})
         return ent({'func': 'fx_nested' if name == nested_at else 'fx_hook', 'params': {'name': name}})
@@ -175,6 +203,8 @@ def build_desc(case):
     for i, prio in enumerate(case['prios']):
         s = ent({'name': 'FxCollector' if case.get('sys_kind') == 'collector' else 'FxSystem',
                  'params': {'id': f's{i}', 'priority': prio, 'frequency': 1 + i, 'start': 0, 'end': _end(case, i)}})
+        if case.get('late_at') == f'pre_s{i}':
+            s['name'], s['module'] = 'FxLateSystem', LATE_MODULE
         if hooks.get(f'pre_s{i}'):
             s['pre_system_init'] = hook(f'pre_s{i}')
         if hooks.get(f'post_s{i}'):
@@ -184,6 +214,8 @@ def build_desc(case):
         a = ent({'name': 'FxAgent', 'number': n, 'params': {'group': f'g{g}'}})
         if case.get('stale_index'):
             a['params']['agent_index'] = 5      # a stale value in the file must not survive: indices are 0..n-1
+        if case.get('late_at') == f'pre_g{g}':
+            a['name'], a['module'] = 'FxLateAgent', LATE_MODULE
         if hooks.get(f'pre_g{g}'):
             a['pre_agent_init'] = hook(f'pre_g{g}')
         if hooks.get(f'post_g{g}'):
@@ -242,7 +274,7 @@ def decode_case(case):
     main = sys.modules['__main__']
     me = sys.modules[MOD]
     me.fx_hook = _FX_HOOK_V1
-    for name in ('FxModel', 'FxSystem', 'FxCollector', 'FxAgent', 'fx_hook', 'fx_nested', 'fx_provide', 'fx_swap_env'):
+    for name in ('FxModel', 'FxSystem', 'FxCollector', 'FxAgent', 'fx_hook', 'fx_nested', 'fx_provide', 'fx_swap_env', 'fx_provide_members'):
         setattr(main, name, getattr(me, name))     # resolution target when the description omits "module"
     tmp = tempfile.mkdtemp(prefix='c18-')
     try:
@@ -423,6 +455,9 @@ def cases(tier):
             for at in hook_names(ns, ng):
                 if '_g' in at:
                     out.append(dict(base, swap_at=at))
+            for at in hook_names(ns, ng):
+                if at.startswith('pre_s') or at.startswith('pre_g'):
+                    out.append(dict(base, late_at=at))
             out.append(dict(base, late_model=True))
             out.append(dict(base, late_model=True, hooks={'pre_model': True}))
     # a large description: 60 systems, a group of 1100 agents between an empty group and a small one
